@@ -107,12 +107,12 @@ theorem length_copyInto (d : AMap K V) (es : List (K × V)) (hw : AMap.WF es)
 
 /-- pcs at which `l.bi` is the bucket of the key in table `l.tbl` -/
 def hasBi : Pc → Bool
-  | .dcLock | .dcChkResizing | .dcChkTable | .dcScan | .dcFn | .dcCommit => true
+  | .dcLock | .dcChkResizing | .dcChkTable | .dcScan | .dcSum | .dcFn | .dcCommit => true
   | _ => false
 
 /-- a writer that has passed both checks (`resizing`, `cur`) and not committed yet -/
 def pastChk : Pc → Bool
-  | .dcChkTable | .dcScan | .dcFn | .dcCommit => true
+  | .dcChkTable | .dcScan | .dcSum | .dcFn | .dcCommit => true
   | _ => false
 
 /-- copy progress of a resizer: the buckets `< c` of the old table have been copied -/
@@ -135,13 +135,15 @@ structure LD (p : Params K) (g : G K V) (l : L K V) : Prop where
   tblLe : l.tbl ≤ g.cur
   framesLe : ∀ f ∈ l.frames, f.tbl ≤ g.cur
   bkt : hasBi l.pc = true → ∀ k, opKey l = some k → l.bi = bucketOf p g l.tbl k
-  old : (l.pc = .dcFn ∨ l.pc = .dcCommit) → ∀ k, opKey l = some k → l.old = (g.tables l.tbl).data.get k
+  old : (l.pc = .dcSum ∨ l.pc = .dcFn ∨ l.pc = .dcCommit) → ∀ k, opKey l = some k → l.old = (g.tables l.tbl).data.get k
   rcur : (usesRtbl l.pc = true ∨ l.pc = .rzPublish) → l.rtbl = g.cur
   newGt : usesNewT l.pc = true → g.cur < l.newT
-  noclr : (l.pc = .rzCopyLock ∨ l.pc = .rzCopyDo ∨ l.pc = .rzCopyUnlock) → l.hint ≠ .clear
+  noclr : (l.pc = .rzDecideSum ∨ l.pc = .rzCopyLock ∨ l.pc = .rzCopyDo ∨ l.pc = .rzCopyUnlock) → l.hint ≠ .clear
   copy : ∀ c, copyC l = some c → Copied p g l.rtbl l.newT c
   full : l.pc = .rzPublish → l.hint ≠ .clear → (g.tables l.rtbl).len ≤ l.ci
   clr : l.pc = .rzPublish → l.hint = .clear → (g.tables l.newT).data = []
+  /-- the length check of a shrink (`rzDecide`) still holds while the counter is summed -/
+  shr : l.pc = .rzDecideSum → p.minLen < (g.tables l.rtbl).len
 
 /-- relation between a resizer `r` and a writer `u`: a writer past its checks on the table being copied holds
 a bucket that has not been copied yet -/
@@ -166,7 +168,8 @@ theorem GD_same (g g' : G K V) (h : SameD g g') (hd : GD g) : GD g' :=
 
 theorem LD_same (p : Params K) (g g' : G K V) (l : L K V) (h : SameD g g') (hd : LD p g l) : LD p g' l := by
   obtain ⟨hc, ht⟩ := h
-  refine ⟨by rw [hc]; exact hd.tblLe, fun f hf => by rw [hc]; exact hd.framesLe f hf, ?_, ?_, ?_, ?_, hd.noclr, ?_, ?_, ?_⟩
+  refine ⟨by rw [hc]; exact hd.tblLe, fun f hf => by rw [hc]; exact hd.framesLe f hf, ?_, ?_, ?_, ?_, hd.noclr, ?_, ?_, ?_,
+    fun h1 => by rw [(ht _).1]; exact hd.shr h1⟩
   · intro h1 k hk; rw [bucketOf_congr p g g' _ k (ht _).1]; exact hd.bkt h1 k hk
   · intro h1 k hk; rw [(ht _).2]; exact hd.old h1 k hk
   · intro h1; rw [hc]; exact hd.rcur h1
@@ -189,27 +192,29 @@ theorem sameD_setLock (g : G K V) (T i : Nat) (o : Option Tid) : SameD g (setTbl
   · rename_i h; subst h; exact ⟨rfl, rfl⟩
   · exact ⟨rfl, rfl⟩
 
-theorem sameD_size (g : G K V) (T : Nat) (sz : Int) : SameD g (setTbl g T { g.tables T with size := sz }) := by
+theorem sameD_addCtr (g : G K V) (T n bi : Nat) (d : Int) : SameD g (setTbl g T ((g.tables T).addCtr n bi d)) := by
   refine ⟨rfl, fun T' => ?_⟩
-  simp only [setTbl]
+  simp only [setTbl, PTbl.addCtr]
   split
   · rename_i h; subst h; exact ⟨rfl, rfl⟩
   · exact ⟨rfl, rfl⟩
 
-/-- every step except the commit, the allocation, the copy and the publish leaves `cur`, the lengths and the data alone -/
+/-- every step except the commit, the allocation (`rzDecide`, or `rzDecideSum` for a shrink), the copy and the
+publish leaves `cur`, the lengths and the data alone -/
 theorem quiet_sameD (p : Params K) (t : Tid) (g : G K V) (l : L K V) (c : Choice K V) (g' : G K V) (l' : L K V)
-    (h1 : l.pc ≠ .dcCommit) (h2 : l.pc ≠ .rzDecide) (h3 : l.pc ≠ .rzCopyDo) (h4 : l.pc ≠ .rzPublish)
+    (h1 : l.pc ≠ .dcCommit) (h2 : ¬ (l.pc = .rzDecide ∨ l.pc = .rzDecideSum)) (h3 : l.pc ≠ .rzCopyDo) (h4 : l.pc ≠ .rzPublish)
     (hs : tstep p t g l c = some (g', l')) : SameD g g' := by
-  cases hpc : l.pc <;> simp only [hpc, ne_eq, not_true_eq_false, reduceCtorEq, not_false_eq_true] at h1 h2 h3 h4 <;>
+  cases hpc : l.pc <;>
+    simp only [hpc, ne_eq, not_true_eq_false, reduceCtorEq, not_false_eq_true, or_self, or_false, false_or] at h1 h2 h3 h4 <;>
     simp only [tstep, hpc] at hs <;> (repeat' split at hs) <;>
     simp only [Option.some.injEq, reduceCtorEq, Prod.mk.injEq] at hs <;> obtain ⟨rfl, -⟩ := hs <;>
-    first | exact sameD_refl _ | exact sameD_setLock _ _ _ _ | exact sameD_size _ _ _ | exact ⟨rfl, fun _ => ⟨rfl, rfl⟩⟩
+    first | exact sameD_refl _ | exact sameD_setLock _ _ _ _ | exact sameD_addCtr _ _ _ _ _ | exact ⟨rfl, fun _ => ⟨rfl, rfl⟩⟩
 
 theorem LD_of_quiet (p : Params K) (g : G K V) (l : L K V)
     (hpc : l.pc = .ret ∨ l.pc = .dcLoadTable ∨ l.pc = .rzCas ∨ l.pc = .ldTable ∨ l.pc = .dcFast ∨ l.pc = .szTable
       ∨ l.pc = .clTable ∨ l.pc = .rgTable)
     (ht : l.tbl ≤ g.cur) (hf : ∀ f ∈ l.frames, f.tbl ≤ g.cur) : LD p g l := by
-  rcases hpc with h | h | h | h | h | h | h | h <;> (refine ⟨ht, hf, ?_, ?_, ?_, ?_, ?_, ?_, ?_, ?_⟩) <;>
+  rcases hpc with h | h | h | h | h | h | h | h <;> (refine ⟨ht, hf, ?_, ?_, ?_, ?_, ?_, ?_, ?_, ?_, ?_⟩) <;>
     simp [h, hasBi, usesRtbl, usesNewT, copyC]
 
 theorem popContAux_tbl (l : L K V) : (popCont.popContAux l).tbl = l.tbl := by
@@ -231,14 +236,14 @@ local macro "selfq_tac" : tactic => `(tactic| (
       repeat' split at hs
       all_goals simp only [Option.some.injEq, reduceCtorEq, Prod.mk.injEq] at hs
       all_goals obtain ⟨-, rfl⟩ := hs
-      all_goals (refine ⟨?_, ?_, ?_, ?_, ?_, ?_, ?_, ?_, ?_, ?_⟩)
+      all_goals (refine ⟨?_, ?_, ?_, ?_, ?_, ?_, ?_, ?_, ?_, ?_, ?_⟩)
       all_goals simp_all [hasBi, usesRtbl, usesNewT, copyC, opKey_eq, callResize, callWait]))
 
 set_option hygiene false in
 local macro "selfq_case" n:ident pc:term : command =>
   `(theorem $n {K V : Type} [DecidableEq K] (p : Params K) (t : Tid) (g : G K V) (l : L K V) (c : Choice K V) (g' : G K V) (l' : L K V)
     (hd : LD p g l) (hpc : l.pc = $pc) (hs : tstep p t g l c = some (g', l')) : LD p g l' := by
-  obtain ⟨d1, d2, d3, d4, d5, d6, d7, d8, d9, d10⟩ := hd
+  obtain ⟨d1, d2, d3, d4, d5, d6, d7, d8, d9, d10, d11⟩ := hd
   simp only [tstep, hpc, opKey_eq] at hs
   selfq_tac)
 
@@ -252,6 +257,7 @@ selfq_case selfq_dcLock Pc.dcLock
 selfq_case selfq_dcChkResizing Pc.dcChkResizing
 selfq_case selfq_dcChkTable Pc.dcChkTable
 selfq_case selfq_dcScan Pc.dcScan
+selfq_case selfq_dcSum Pc.dcSum
 selfq_case selfq_dcFn Pc.dcFn
 selfq_case selfq_dcUnlock Pc.dcUnlock
 selfq_case selfq_dcAddSize Pc.dcAddSize
@@ -279,13 +285,13 @@ selfq_case selfq_ret Pc.ret
 
 /-- pcs at which every guarded clause of `LD` is vacuous -/
 def quietPc : Pc → Bool
-  | .dcLock | .dcChkResizing | .dcChkTable | .dcScan | .dcFn | .dcCommit
-  | .rzDecide | .rzCopyLock | .rzCopyDo | .rzCopyUnlock | .rzPublish => false
+  | .dcLock | .dcChkResizing | .dcChkTable | .dcScan | .dcSum | .dcFn | .dcCommit
+  | .rzDecide | .rzDecideSum | .rzCopyLock | .rzCopyDo | .rzCopyUnlock | .rzPublish => false
   | _ => true
 
 theorem LD_of_quietPc (p : Params K) (g : G K V) (l : L K V) (hpc : quietPc l.pc = true)
     (ht : l.tbl ≤ g.cur) (hf : ∀ f ∈ l.frames, f.tbl ≤ g.cur) : LD p g l := by
-  cases h : l.pc <;> simp [h, quietPc] at hpc <;> (refine ⟨ht, hf, ?_, ?_, ?_, ?_, ?_, ?_, ?_, ?_⟩) <;>
+  cases h : l.pc <;> simp [h, quietPc] at hpc <;> (refine ⟨ht, hf, ?_, ?_, ?_, ?_, ?_, ?_, ?_, ?_, ?_⟩) <;>
     simp [h, hasBi, usesRtbl, usesNewT, copyC]
 
 /-- a step of somebody else that only touches tables above `cur` (allocation, copy) or moves `cur` forward
@@ -295,7 +301,7 @@ theorem LD_other_nonres (p : Params K) (g g' : G K V) (m : L K V) (hm : LD p g m
     (ht : ∀ T, T ≤ g.cur → (g'.tables T).len = (g.tables T).len ∧ (g'.tables T).data = (g.tables T).data) :
     LD p g' m := by
   have h1 := ht _ hm.tblLe
-  refine ⟨Nat.le_trans hm.tblLe hc, fun f hf => Nat.le_trans (hm.framesLe f hf) hc, ?_, ?_, ?_, ?_, ?_, ?_, ?_, ?_⟩
+  refine ⟨Nat.le_trans hm.tblLe hc, fun f hf => Nat.le_trans (hm.framesLe f hf) hc, ?_, ?_, ?_, ?_, ?_, ?_, ?_, ?_, ?_⟩
   · intro h k hk; rw [bucketOf_congr p g g' _ k h1.1]; exact hm.bkt h k hk
   · intro h k hk; rw [h1.2]; exact hm.old h k hk
   all_goals (revert hr; cases h : m.pc <;> simp [h, isResizer, usesRtbl, usesNewT, copyC])
@@ -310,11 +316,12 @@ theorem LD_other_key (p : Params K) (g g' : G K V) (m : L K V) (T0 : Nat) (k : K
     (hlen : ∀ T, (g'.tables T).len = (g.tables T).len)
     (hoth : ∀ T, T ≠ T0 → (g'.tables T).data = (g.tables T).data)
     (hkey : ∀ k2, k2 ≠ k → (g'.tables T0).data.get k2 = (g.tables T0).data.get k2)
-    (hex : (m.pc = .dcFn ∨ m.pc = .dcCommit) → m.tbl = T0 → opKey m ≠ some k)
+    (hex : (m.pc = .dcSum ∨ m.pc = .dcFn ∨ m.pc = .dcCommit) → m.tbl = T0 → opKey m ≠ some k)
     (hpair : ∀ c, copyC m = some c → m.rtbl = T0 → c ≤ bucketOf p g T0 k) : LD p g' m := by
   have hng : ∀ c, copyC m = some c → g.cur < m.newT := by
     intro c hcc; exact hm.newGt (copyC_pcs m c hcc).1
-  refine ⟨by rw [hc]; exact hm.tblLe, fun f hf => by rw [hc]; exact hm.framesLe f hf, ?_, ?_, ?_, ?_, hm.noclr, ?_, ?_, ?_⟩
+  refine ⟨by rw [hc]; exact hm.tblLe, fun f hf => by rw [hc]; exact hm.framesLe f hf, ?_, ?_, ?_, ?_, hm.noclr, ?_, ?_, ?_,
+    fun h1 => by rw [hlen]; exact hm.shr h1⟩
   · intro h k hk; rw [bucketOf_congr p g g' _ k (hlen _)]; exact hm.bkt h k hk
   · intro h k2 hk
     rw [hm.old h k2 hk]
@@ -377,7 +384,16 @@ theorem selfq_rgVisit (p : Params K) (t : Tid) (g : G K V) (l : L K V) (c : Choi
 theorem selfq_rzFast (p : Params K) (t : Tid) (g : G K V) (l : L K V) (c : Choice K V) (g' : G K V) (l' : L K V)
     (hd : LD p g l) (hpc : l.pc = .rzFast) (hs : tstep p t g l c = some (g', l')) : LD p g l' := by
   simp only [tstep, hpc] at hs
-  split at hs <;> simp only [Option.some.injEq, Prod.mk.injEq] at hs <;> obtain ⟨-, rfl⟩ := hs
+  (repeat' split at hs) <;> simp only [Option.some.injEq, Prod.mk.injEq] at hs <;> obtain ⟨-, rfl⟩ := hs
+  · exact LD_popCont p g l hd
+  · exact LD_of_quietPc p g _ (by simp [quietPc]) hd.tblLe hd.framesLe
+  · exact LD_of_quietPc p g _ (by simp [quietPc]) hd.tblLe hd.framesLe
+
+theorem selfq_rzFastSum (p : Params K) (t : Tid) (g : G K V) (l : L K V) (c : Choice K V) (g' : G K V) (l' : L K V)
+    (hd : LD p g l) (hpc : l.pc = .rzFastSum) (hs : tstep p t g l c = some (g', l')) : LD p g l' := by
+  simp only [tstep, hpc] at hs
+  (repeat' split at hs) <;> simp only [Option.some.injEq, Prod.mk.injEq] at hs <;> obtain ⟨-, rfl⟩ := hs
+  · exact LD_of_quietPc p g _ (by simp [quietPc]) hd.tblLe hd.framesLe
   · exact LD_popCont p g l hd
   · exact LD_of_quietPc p g _ (by simp [quietPc]) hd.tblLe hd.framesLe
 
@@ -395,7 +411,7 @@ theorem selfq_wfMuUnlock (p : Params K) (t : Tid) (g : G K V) (l : L K V) (c : C
 
 /-- the stepping thread, quiet steps: its new locals satisfy `LD` (w.r.t. the old globals) -/
 theorem selfq (p : Params K) (t : Tid) (g : G K V) (l : L K V) (c : Choice K V) (g' : G K V) (l' : L K V)
-    (hd : LD p g l) (h1 : l.pc ≠ .dcCommit) (h2 : l.pc ≠ .rzDecide) (h3 : l.pc ≠ .rzCopyDo) (h4 : l.pc ≠ .rzPublish)
+    (hd : LD p g l) (h1 : l.pc ≠ .dcCommit) (h2 : ¬ (l.pc = .rzDecide ∨ l.pc = .rzDecideSum)) (h3 : l.pc ≠ .rzCopyDo) (h4 : l.pc ≠ .rzPublish)
     (hs : tstep p t g l c = some (g', l')) : LD p g l' := by
   cases hpc : l.pc
   · exact selfq_idle p t g l c g' l' hd hpc hs
@@ -409,6 +425,7 @@ theorem selfq (p : Params K) (t : Tid) (g : G K V) (l : L K V) (c : Choice K V) 
   · exact selfq_dcChkResizing p t g l c g' l' hd hpc hs
   · exact selfq_dcChkTable p t g l c g' l' hd hpc hs
   · exact selfq_dcScan p t g l c g' l' hd hpc hs
+  · exact selfq_dcSum p t g l c g' l' hd hpc hs
   · exact selfq_dcFn p t g l c g' l' hd hpc hs
   · exact absurd hpc h1
   · exact selfq_dcUnlock p t g l c g' l' hd hpc hs
@@ -418,9 +435,11 @@ theorem selfq (p : Params K) (t : Tid) (g : G K V) (l : L K V) (c : Choice K V) 
   · exact selfq_dcUnlockRetry p t g l c g' l' hd hpc hs
   · exact selfq_dcUnlockGrow p t g l c g' l' hd hpc hs
   · exact selfq_rzFast p t g l c g' l' hd hpc hs
+  · exact selfq_rzFastSum p t g l c g' l' hd hpc hs
   · exact selfq_rzCas p t g l c g' l' hd hpc hs
   · exact selfq_rzLoadTable p t g l c g' l' hd hpc hs
-  · exact absurd hpc h2
+  · exact absurd (Or.inl hpc) h2
+  · exact absurd (Or.inr hpc) h2
   · exact selfq_rzCopyLock p t g l c g' l' hd hpc hs
   · exact absurd hpc h3
   · exact selfq_rzCopyUnlock p t g l c g' l' hd hpc hs
@@ -465,7 +484,7 @@ theorem commit_shape (p : Params K) (t : Tid) (g : G K V) (l : L K V) (c : Choic
 
 /-- what a step does to the tables when it changes the data of one table at one key -/
 def KeyFrame (g g' : G K V) (T0 : Nat) (k : K) : Prop :=
-    g'.cur = g.cur ∧ g'.ntables = g.ntables ∧ (∀ T, (g'.tables T).len = (g.tables T).len ∧ (g'.tables T).size = (g.tables T).size) ∧
+    g'.cur = g.cur ∧ g'.ntables = g.ntables ∧ (∀ T, (g'.tables T).len = (g.tables T).len ∧ (g'.tables T).ctr = (g.tables T).ctr) ∧
     (∀ T, T ≠ T0 → (g'.tables T).data = (g.tables T).data) ∧
     (∀ k2, k2 ≠ k → (g'.tables T0).data.get k2 = (g.tables T0).data.get k2) ∧
     (AMap.WF (g.tables T0).data → AMap.WF (g'.tables T0).data)
@@ -507,46 +526,78 @@ theorem self_dcCommit (p : Params K) (t : Tid) (g : G K V) (l : L K V) (c : Choi
   · exact LD_of_quietPc p g' l' (by rw [hpc']; rfl) (by rw [htbl, hc]; exact hd.tblLe)
       (by rw [hfr, hc]; exact hd.framesLe)
 
-/-- shape of the allocation step (`rzDecide`): either abandoned, or a fresh empty table at index `ntables` -/
+/-- a resizer that sums the counter to decide about a shrink -/
+theorem LD_decideSum (p : Params K) (g : G K V) (l : L K V) (hpc : l.pc = .rzDecideSum)
+    (ht : l.tbl ≤ g.cur) (hf : ∀ f ∈ l.frames, f.tbl ≤ g.cur) (hr : l.rtbl = g.cur) (hn : l.hint ≠ .clear)
+    (hl : p.minLen < (g.tables l.rtbl).len) : LD p g l := by
+  refine ⟨ht, hf, ?_, ?_, fun _ => hr, ?_, fun _ => hn, ?_, ?_, ?_, fun _ => hl⟩ <;>
+    simp [hpc, hasBi, usesNewT, copyC]
+
+/-- shape of the allocation step (`rzDecide`, and `rzDecideSum` at the end of the counter sum of a shrink): either
+nothing shared changes (abandoned, or the sum goes on), or a fresh empty table appears at index `ntables` -/
 theorem decide_shape (p : Params K) (t : Tid) (g : G K V) (l : L K V) (c : Choice K V) (g' : G K V) (l' : L K V)
     (hmin : 0 < p.minLen) (hlen : 0 < (g.tables l.rtbl).len)
-    (hpc : l.pc = .rzDecide) (hs : tstep p t g l c = some (g', l')) :
+    (hshr : l.pc = .rzDecideSum → p.minLen < (g.tables l.rtbl).len)
+    (hpc : l.pc = .rzDecide ∨ l.pc = .rzDecideSum) (hs : tstep p t g l c = some (g', l')) :
     l'.tbl = l.tbl ∧ l'.frames = l.frames ∧ l'.rtbl = l.rtbl ∧ l'.hint = l.hint ∧ l'.delta = l.delta ∧
-    ((g' = g ∧ l'.pc = .rzMuLock) ∨
+    ((g' = g ∧ (l'.pc = .rzMuLock ∨
+        (l'.pc = .rzDecideSum ∧ (l.pc = .rzDecide → l.hint ≠ .clear) ∧ p.minLen < (g.tables l.rtbl).len))) ∨
      (∃ len, 0 < len ∧ g'.cur = g.cur ∧ g'.ntables = g.ntables + 1 ∧ g'.tables g.ntables = emptyTbl len ∧
         (∀ T, T ≠ g.ntables → g'.tables T = g.tables T) ∧ l'.newT = g.ntables ∧
-        ((l.hint ≠ .clear ∧ l'.pc = .rzCopyLock ∧ l'.ci = 0) ∨ (l.hint = .clear ∧ l'.pc = .rzPublish)))) := by
-  simp only [tstep, hpc] at hs
-  split at hs
-  · rename_i hh
-    simp only [Option.some.injEq, Prod.mk.injEq] at hs; obtain ⟨rfl, rfl⟩ := hs
-    refine ⟨rfl, rfl, rfl, rfl, rfl, Or.inr ⟨(g.tables l.rtbl).len * 2, by omega, rfl, rfl, ?_, ?_, rfl, Or.inl ⟨by simp [hh], rfl, rfl⟩⟩⟩
-    · simp [setTbl]
-    · intro T hT; simp [setTbl, hT]
-  · rename_i hh
+        ((l'.pc = .rzCopyLock ∧ l'.ci = 0 ∧ (l.pc = .rzDecide → l.hint ≠ .clear)) ∨
+         (l.hint = .clear ∧ l'.pc = .rzPublish)))) := by
+  rcases hpc with hpc | hpc
+  · simp only [tstep, hpc] at hs
     split at hs
-    · rename_i hcond
+    · rename_i hh
       simp only [Option.some.injEq, Prod.mk.injEq] at hs; obtain ⟨rfl, rfl⟩ := hs
-      refine ⟨rfl, rfl, rfl, rfl, rfl, Or.inr ⟨(g.tables l.rtbl).len / 2, ?_, rfl, rfl, ?_, ?_, rfl, Or.inl ⟨by simp [hh], rfl, rfl⟩⟩⟩
-      · have := hcond.1; omega
+      refine ⟨rfl, rfl, rfl, rfl, rfl, Or.inr ⟨(g.tables l.rtbl).len * 2, by omega, rfl, rfl, ?_, ?_, rfl,
+        Or.inl ⟨rfl, rfl, fun _ => by simp [hh]⟩⟩⟩
       · simp [setTbl]
       · intro T hT; simp [setTbl, hT]
+    · rename_i hh
+      split at hs
+      · rename_i hcond
+        simp only [Option.some.injEq, Prod.mk.injEq] at hs; obtain ⟨rfl, rfl⟩ := hs
+        exact ⟨rfl, rfl, rfl, rfl, rfl, Or.inl ⟨rfl, Or.inr ⟨rfl, fun _ => by simp [hh], hcond⟩⟩⟩
+      · simp only [Option.some.injEq, Prod.mk.injEq] at hs; obtain ⟨rfl, rfl⟩ := hs
+        exact ⟨rfl, rfl, rfl, rfl, rfl, Or.inl ⟨rfl, Or.inl rfl⟩⟩
+    · rename_i hh
+      simp only [Option.some.injEq, Prod.mk.injEq] at hs; obtain ⟨rfl, rfl⟩ := hs
+      refine ⟨rfl, rfl, rfl, rfl, rfl, Or.inr ⟨p.minLen, hmin, rfl, rfl, ?_, ?_, rfl, Or.inr ⟨hh, rfl⟩⟩⟩
+      · simp [setTbl]
+      · intro T hT; simp [setTbl, hT]
+  · have hl := hshr hpc
+    have hnd : l.pc = .rzDecide → l.hint ≠ .clear := fun h => by rw [hpc] at h; cases h
+    simp only [tstep, hpc] at hs
+    split at hs
     · simp only [Option.some.injEq, Prod.mk.injEq] at hs; obtain ⟨rfl, rfl⟩ := hs
-      exact ⟨rfl, rfl, rfl, rfl, rfl, Or.inl ⟨rfl, rfl⟩⟩
-  · rename_i hh
-    simp only [Option.some.injEq, Prod.mk.injEq] at hs; obtain ⟨rfl, rfl⟩ := hs
-    refine ⟨rfl, rfl, rfl, rfl, rfl, Or.inr ⟨p.minLen, hmin, rfl, rfl, ?_, ?_, rfl, Or.inr ⟨hh, rfl⟩⟩⟩
-    · simp [setTbl]
-    · intro T hT; simp [setTbl, hT]
+      exact ⟨rfl, rfl, rfl, rfl, rfl, Or.inl ⟨rfl, Or.inr ⟨rfl, hnd, hl⟩⟩⟩
+    · split at hs
+      · simp only [Option.some.injEq, Prod.mk.injEq] at hs; obtain ⟨rfl, rfl⟩ := hs
+        refine ⟨rfl, rfl, rfl, rfl, rfl, Or.inr ⟨(g.tables l.rtbl).len / 2, by omega, rfl, rfl, ?_, ?_, rfl,
+          Or.inl ⟨rfl, rfl, hnd⟩⟩⟩
+        · simp [setTbl]
+        · intro T hT; simp [setTbl, hT]
+      · simp only [Option.some.injEq, Prod.mk.injEq] at hs; obtain ⟨rfl, rfl⟩ := hs
+        exact ⟨rfl, rfl, rfl, rfl, rfl, Or.inl ⟨rfl, Or.inl rfl⟩⟩
 
 theorem self_rzDecide (p : Params K) (t : Tid) (g : G K V) (l : L K V) (c : Choice K V) (g' : G K V) (l' : L K V)
-    (hmin : 0 < p.minLen) (hg : GI g) (hgd : GD g) (hd : LD p g l) (hpc : l.pc = .rzDecide)
+    (hmin : 0 < p.minLen) (hg : GI g) (hgd : GD g) (hd : LD p g l) (hpc : l.pc = .rzDecide ∨ l.pc = .rzDecideSum)
     (hs : tstep p t g l c = some (g', l')) : GD g' ∧ LD p g' l' := by
-  obtain ⟨htbl, hfr, hrt, hhint, -, hcase⟩ := decide_shape p t g l c g' l' hmin (hgd.lenPos _) hpc hs
-  rcases hcase with ⟨e, hpc'⟩ | ⟨len, hlen, hc, hnt, hnew, hoth, hnT, hcase⟩
+  obtain ⟨htbl, hfr, hrt, hhint, -, hcase⟩ := decide_shape p t g l c g' l' hmin (hgd.lenPos _) hd.shr hpc hs
+  have hrc : l.rtbl = g.cur := hd.rcur (Or.inl (by rcases hpc with e | e <;> rw [e] <;> rfl))
+  have hnc : (l.pc = .rzDecide → l.hint ≠ .clear) → l.hint ≠ .clear := by
+    intro h
+    rcases hpc with e | e
+    · exact h e
+    · exact hd.noclr (Or.inl e)
+  rcases hcase with ⟨e, hpc' | ⟨hpc', hh, hl⟩⟩ | ⟨len, hlen, hc, hnt, hnew, hoth, hnT, hcase⟩
   · rw [e]; exact ⟨hgd, LD_of_quietPc p g l' (by rw [hpc']; rfl) (by rw [htbl]; exact hd.tblLe) (by rw [hfr]; exact hd.framesLe)⟩
+  · rw [e]
+    exact ⟨hgd, LD_decideSum p g l' hpc' (by rw [htbl]; exact hd.tblLe) (by rw [hfr]; exact hd.framesLe)
+      (by rw [hrt]; exact hrc) (by rw [hhint]; exact hnc hh) (by rw [hrt]; exact hl)⟩
   · have hcur : g.cur < g.ntables := hg.2
-    have hrc : l.rtbl = g.cur := hd.rcur (Or.inl (by rw [hpc]; rfl))
     refine ⟨⟨fun T => ?_, fun T => ?_⟩, ?_⟩
     · by_cases hT : T = g.ntables
       · subst hT; rw [hnew]; exact AMap.WF_nil
@@ -555,26 +606,27 @@ theorem self_rzDecide (p : Params K) (t : Tid) (g : G K V) (l : L K V) (c : Choi
       · subst hT; rw [hnew]; exact hlen
       · rw [hoth T hT]; exact hgd.lenPos T
     · have hdn : (g'.tables l'.newT).data = [] := by rw [hnT, hnew]; rfl
-      refine ⟨by rw [htbl, hc]; exact hd.tblLe, by rw [hfr, hc]; exact hd.framesLe, ?_, ?_, ?_, ?_, ?_, ?_, ?_, ?_⟩
-      · rcases hcase with ⟨-, h, -⟩ | ⟨-, h⟩ <;> simp [h, hasBi]
-      · rcases hcase with ⟨-, h, -⟩ | ⟨-, h⟩ <;> simp [h]
+      refine ⟨by rw [htbl, hc]; exact hd.tblLe, by rw [hfr, hc]; exact hd.framesLe, ?_, ?_, ?_, ?_, ?_, ?_, ?_, ?_, ?_⟩
+      · rcases hcase with ⟨h, -, -⟩ | ⟨-, h⟩ <;> simp [h, hasBi]
+      · rcases hcase with ⟨h, -, -⟩ | ⟨-, h⟩ <;> simp [h]
       · intro _; rw [hrt, hc]; exact hrc
       · intro _; rw [hnT, hc]; exact hcur
       · intro _; rw [hhint]
-        rcases hcase with ⟨h, -, -⟩ | ⟨-, h⟩
-        · exact h
+        rcases hcase with ⟨-, -, h⟩ | ⟨-, h⟩
+        · exact hnc h
         · simp_all
       · intro c hcc
-        rcases hcase with ⟨hh, h, hci⟩ | ⟨hh, h⟩
+        rcases hcase with ⟨h, hci, hh⟩ | ⟨hh, h⟩
         · simp only [copyC, h, hci, Option.some.injEq] at hcc
           subst hcc
           intro k; rw [hdn]; simp
         · simp [copyC, h, hhint, hh] at hcc
       · intro h1 h2
-        rcases hcase with ⟨hh, h, hci⟩ | ⟨hh, h⟩
+        rcases hcase with ⟨h, hci, hh⟩ | ⟨hh, h⟩
         · rw [h] at h1; cases h1
         · rw [hhint] at h2; exact absurd hh h2
       · intro _ _; exact hdn
+      · rcases hcase with ⟨h, -, -⟩ | ⟨-, h⟩ <;> simp [h]
 
 /-- the copy of one bucket -/
 theorem Copied_copyDo (p : Params K) (g : G K V) (o n c : Nat) (nt' : PTbl K V) (hne : o ≠ n)
@@ -630,12 +682,12 @@ theorem self_rzCopyDo (p : Params K) (t : Tid) (g : G K V) (l : L K V) (c : Choi
   · simp only [setTbl]; split
     · rename_i h; subst h; exact hgd.lenPos _
     · exact hgd.lenPos T
-  · refine ⟨hd.tblLe, hd.framesLe, ?_, ?_, ?_, ?_, ?_, ?_, ?_, ?_⟩
+  · refine ⟨hd.tblLe, hd.framesLe, ?_, ?_, ?_, ?_, ?_, ?_, ?_, ?_, fun h => by cases h⟩
     · simp [hasBi]
     · simp
     · intro _; exact hrc
     · intro _; exact hgt
-    · intro _; exact hd.noclr (Or.inr (Or.inl hpc))
+    · intro _; exact hd.noclr (Or.inr (Or.inr (Or.inl hpc)))
     · intro c hcc
       simp only [copyC, Option.some.injEq] at hcc
       subst hcc
@@ -682,15 +734,15 @@ theorem other_LD (p : Params K) (t u : Tid) (g : G K V) (l m : L K V) (c : Choic
     have hbi : l.bi = bucketOf p g l.tbl k := hdt.bkt (by rw [h1]; rfl) k hk
     refine LD_other_key p g g' m l.tbl k hdm hc hdt.tblLe (fun T => (hlen T).1) hoth hkey ?_ ?_
     · intro hpc hT hmk
-      have hmb : m.bi = bucketOf p g m.tbl k := hdm.bkt (by rcases hpc with e | e <;> rw [e] <;> rfl) k hmk
+      have hmb : m.bi = bucketOf p g m.tbl k := hdm.bkt (by rcases hpc with e | e | e <;> rw [e] <;> rfl) k hmk
       refine lock_excl t u g l m hne hlt hlu l.tbl l.bi (holds_pastChk l (by rw [h1]; rfl)) ?_
-      rw [holds_pastChk m (by rcases hpc with e | e <;> rw [e] <;> rfl), hmb, hT, hbi]
+      rw [holds_pastChk m (by rcases hpc with e | e | e <;> rw [e] <;> rfl), hmb, hT, hbi]
     · intro c hcc hT
       rw [← hbi]
       exact hpair c hcc (by rw [h1]; rfl) hT.symm
-  by_cases h2 : l.pc = .rzDecide
-  · have hnr := not_resizer_of t u g l m hne hlt hlu (by rw [h2]; rfl)
-    obtain ⟨-, -, -, -, -, hcase⟩ := decide_shape p t g l c g' l' hmin (hgd.lenPos _) h2 hs
+  by_cases h2 : l.pc = .rzDecide ∨ l.pc = .rzDecideSum
+  · have hnr := not_resizer_of t u g l m hne hlt hlu (by rcases h2 with e | e <;> rw [e] <;> rfl)
+    obtain ⟨-, -, -, -, -, hcase⟩ := decide_shape p t g l c g' l' hmin (hgd.lenPos _) hdt.shr h2 hs
     rcases hcase with ⟨e, -⟩ | ⟨len, -, hc, -, -, hoth, -, -⟩
     · rw [e]; exact hdm
     · refine LD_other_nonres p g g' m hdm hnr (by omega) (fun T hT => ?_)
@@ -717,7 +769,7 @@ theorem self_LD (p : Params K) (t : Tid) (g : G K V) (l : L K V) (c : Choice K V
     (hs : tstep p t g l c = some (g', l')) : GD g' ∧ LD p g' l' := by
   by_cases h1 : l.pc = .dcCommit
   · exact self_dcCommit p t g l c g' l' hgd hd h1 hs
-  by_cases h2 : l.pc = .rzDecide
+  by_cases h2 : l.pc = .rzDecide ∨ l.pc = .rzDecideSum
   · exact self_rzDecide p t g l c g' l' hmin hg hgd hd h2 hs
   by_cases h3 : l.pc = .rzCopyDo
   · exact self_rzCopyDo p t g l c g' l' hgd hd h3 hs
@@ -810,24 +862,68 @@ theorem pair_self_u (p : Params K) (t u : Tid) (g : G K V) (l m : L K V) (c : Ch
 
 /-! ## part: Counter -/
 
+/-- partial sum of the stripes: `psum c n = c 0 + … + c (n-1)` -/
+def psum (c : Nat → Int) (n : Nat) : Int := ((List.range n).map c).sum
+
+theorem total_eq (t : PTbl K V) (n : Nat) : t.total n = psum t.ctr n := rfl
+
+theorem psum_zero (c : Nat → Int) : psum c 0 = 0 := rfl
+
+theorem psum_succ (c : Nat → Int) (n : Nat) : psum c (n + 1) = psum c n + c n := by
+  simp [psum, List.range_succ, List.map_append, List.sum_append]
+
+theorem psum_const_zero (n : Nat) : psum (fun _ => 0) n = 0 := by
+  induction n with
+  | zero => rfl
+  | succ n ih => rw [psum_succ, ih]; rfl
+
+/-- adding `d` to stripe `j` adds `d` to every partial sum that covers stripe `j` -/
+theorem psum_update (c : Nat → Int) (j : Nat) (d : Int) (m : Nat) :
+    psum (fun i => if i = j then c i + d else c i) m = psum c m + (if j < m then d else 0) := by
+  induction m with
+  | zero => simp [psum_zero]
+  | succ m ih =>
+    rw [psum_succ, psum_succ, ih]
+    by_cases h1 : m = j
+    · subst h1; simp
+      omega
+    · rw [if_neg h1]
+      by_cases h2 : j < m
+      · rw [if_pos h2, if_pos (show j < m + 1 by omega)]; omega
+      · rw [if_neg h2, if_neg (show ¬ j < m + 1 by omega)]; omega
+
+/-- `addSize` changes the (atomic) sum of the stripes by exactly `d` -/
+theorem total_addCtr (t : PTbl K V) (n bi : Nat) (d : Int) (hn : 0 < n) :
+    (t.addCtr n bi d).total n = t.total n + d := by
+  rw [total_eq, total_eq]
+  show psum (fun j => if j = bi % n then t.ctr j + d else t.ctr j) n = _
+  rw [psum_update, if_pos (Nat.mod_lt _ hn)]
+
+theorem total_emptyTbl (len n : Nat) : (emptyTbl (K := K) (V := V) len).total n = 0 := psum_const_zero n
+
+theorem total_congr (a b : PTbl K V) (n m : Nat) (h1 : a.ctr = b.ctr) (h2 : n = m) : a.total n = b.total m := by
+  rw [total_eq, total_eq, h1, h2]
+
 /-- the globals agree on what the counter invariant looks at -/
 def SameC (g g' : G K V) : Prop :=
-  g'.ntables = g.ntables ∧ ∀ T, (g'.tables T).size = (g.tables T).size ∧ (g'.tables T).data = (g.tables T).data
+  g'.ntables = g.ntables ∧ ∀ T, (g'.tables T).ctr = (g.tables T).ctr ∧ (g'.tables T).len = (g.tables T).len ∧
+    (g'.tables T).data = (g.tables T).data
 
 theorem sameC_setLock (g : G K V) (T i : Nat) (o : Option Tid) : SameC g (setTbl g T ((g.tables T).setLock i o)) := by
   refine ⟨rfl, fun T' => ?_⟩
   simp only [setTbl, PTbl.setLock]
   split
-  · rename_i h; subst h; exact ⟨rfl, rfl⟩
-  · exact ⟨rfl, rfl⟩
+  · rename_i h; subst h; exact ⟨rfl, rfl, rfl⟩
+  · exact ⟨rfl, rfl, rfl⟩
 
 theorem quiet_sameC (p : Params K) (t : Tid) (g : G K V) (l : L K V) (c : Choice K V) (g' : G K V) (l' : L K V)
-    (h1 : l.pc ≠ .dcCommit) (h2 : l.pc ≠ .rzDecide) (h3 : l.pc ≠ .rzCopyDo) (h4 : l.pc ≠ .dcAddSize)
+    (h1 : l.pc ≠ .dcCommit) (h2 : ¬ (l.pc = .rzDecide ∨ l.pc = .rzDecideSum)) (h3 : l.pc ≠ .rzCopyDo) (h4 : l.pc ≠ .dcAddSize)
     (hs : tstep p t g l c = some (g', l')) : SameC g g' := by
-  cases hpc : l.pc <;> simp only [hpc, ne_eq, not_true_eq_false, reduceCtorEq, not_false_eq_true] at h1 h2 h3 h4 <;>
+  cases hpc : l.pc <;>
+    simp only [hpc, ne_eq, not_true_eq_false, reduceCtorEq, not_false_eq_true, or_self, or_false, false_or] at h1 h2 h3 h4 <;>
     simp only [tstep, hpc] at hs <;> (repeat' split at hs) <;>
     simp only [Option.some.injEq, reduceCtorEq, Prod.mk.injEq] at hs <;> obtain ⟨rfl, -⟩ := hs <;>
-    first | exact sameC_setLock _ _ _ _ | exact ⟨rfl, fun _ => ⟨rfl, rfl⟩⟩
+    first | exact sameC_setLock _ _ _ _ | exact ⟨rfl, fun _ => ⟨rfl, rfl, rfl⟩⟩
 
 theorem pendSum_succ (s : St K V) (T n : Nat) : pendSum s T (n + 1) = pendSum s T n + contrib (s.l n) T := rfl
 
@@ -865,16 +961,19 @@ theorem pendSum_update (s : St K V) (g' : G K V) (t : Nat) (l' : L K V) (T N : N
       · have h3 : ¬ t < N + 1 := by omega
         rw [if_neg h2, if_neg h3]; omega
 
-/-- counter invariant of table `T`: counter + pending deltas = number of entries -/
-def CntT (s : St K V) (T : Nat) : Prop :=
-  ∀ N, (∀ u : Nat, N ≤ u → pendingOn (s.l u) T = false) →
-    (s.g.tables T).size + pendSum s T N = ((s.g.tables T).data.length : Int)
+/-- counter invariant of table `T`: (atomic) sum of the counter stripes + pending deltas = number of entries.
+(Every table has at least one stripe — `hst`; with zero stripes `addSize` would add to a stripe that is never summed.) -/
+def CntT (p : Params K) (s : St K V) (T : Nat) : Prop :=
+  (∀ n, 0 < p.stripes n) → ∀ N, (∀ u : Nat, N ≤ u → pendingOn (s.l u) T = false) →
+    (s.g.tables T).total (p.stripes (s.g.tables T).len) + pendSum s T N = ((s.g.tables T).data.length : Int)
 
-theorem cntT_step (s : St K V) (g' : G K V) (t : Nat) (l' : L K V) (T : Nat) (h : CntT s T)
-    (heq : (g'.tables T).size + contrib l' T + ((s.g.tables T).data.length : Int)
-         = (s.g.tables T).size + contrib (s.l t) T + ((g'.tables T).data.length : Int)) :
-    CntT { g := g', l := fun x => if x = t then l' else s.l x } T := by
-  intro N hN
+theorem cntT_step (p : Params K) (s : St K V) (g' : G K V) (t : Nat) (l' : L K V) (T : Nat) (h : CntT p s T)
+    (heq : (∀ n, 0 < p.stripes n) →
+      (g'.tables T).total (p.stripes (g'.tables T).len) + contrib l' T + ((s.g.tables T).data.length : Int)
+         = (s.g.tables T).total (p.stripes (s.g.tables T).len) + contrib (s.l t) T + ((g'.tables T).data.length : Int)) :
+    CntT p { g := g', l := fun x => if x = t then l' else s.l x } T := by
+  intro hst N hN
+  have heq := heq hst
   have hM : ∀ u : Nat, N + t + 1 ≤ u → pendingOn (s.l u) T = false := by
     intro u hu
     have hu1 : N ≤ u := by omega
@@ -882,7 +981,7 @@ theorem cntT_step (s : St K V) (g' : G K V) (t : Nat) (l' : L K V) (T : Nat) (h 
     have := hN u hu1
     dsimp only at this
     rwa [if_neg hu2] at this
-  have h1 := h _ hM
+  have h1 := h hst _ hM
   have h2 := pendSum_ext _ T N hN (N + t + 1) (by omega)
   have h3 := pendSum_update s g' t l' T (N + t + 1)
   have h4 : t < N + t + 1 := by omega
@@ -906,20 +1005,22 @@ theorem pendingOn_of_tbl (l : L K V) (T : Nat) (h : l.tbl ≠ T) : pendingOn l T
 /-- the counter invariant is preserved by every step -/
 theorem cnt_step (p : Params K) (s : St K V) (t : Nat) (c : Choice K V) (g' : G K V) (l' : L K V)
     (hmin : 0 < p.minLen) (hg : GI s.g) (hgd : GD s.g) (hld : ∀ u, LD p s.g (s.l u))
-    (hcnt : ∀ T, T < s.g.ntables → CntT s T)
+    (hcnt : ∀ T, T < s.g.ntables → CntT p s T)
     (hs : tstep p t s.g (s.l t) c = some (g', l')) :
-    ∀ T, T < g'.ntables → CntT { g := g', l := fun x => if x = t then l' else s.l x } T := by
+    ∀ T, T < g'.ntables → CntT p { g := g', l := fun x => if x = t then l' else s.l x } T := by
   have hd := hld t
   by_cases h1 : (s.l t).pc = .dcCommit
   · obtain ⟨k, nv, del, hk, hf, hpc', htbl, hfr, hcase⟩ := commit_shape p t s.g (s.l t) c g' l' h1 hs
     obtain ⟨hc, hnt, hlen, hoth, hkey, hwf⟩ := commit_frame p t s.g (s.l t) c g' l' h1 hs k hk
-    have hold := hd.old (Or.inr h1) k hk
+    have hold := hd.old (Or.inr (Or.inr h1)) k hk
     have hw := hgd.wf (s.l t).tbl
     intro T hT
     rw [hnt] at hT
-    refine cntT_step s g' t l' T (hcnt T hT) ?_
+    refine cntT_step p s g' t l' T (hcnt T hT) (fun hst => ?_)
     have hc0 : contrib (s.l t) T = 0 := contrib_of_pc _ T (by rw [h1]; simp) (by rw [h1]; simp)
-    rw [hc0, (hlen T).2]
+    have htot : (g'.tables T).total (p.stripes (g'.tables T).len) = (s.g.tables T).total (p.stripes (s.g.tables T).len) :=
+      total_congr _ _ _ _ (hlen T).2 (by rw [(hlen T).1])
+    rw [hc0, htot]
     by_cases hTe : (s.l t).tbl = T
     · rw [contrib_pending l' T (Or.inl hpc') (by rw [htbl]; exact hTe)]
       subst hTe
@@ -939,25 +1040,31 @@ theorem cnt_step (p : Params K) (s : St K V) (t : Nat) (c : Choice K V) (g' : G 
   · simp only [tstep, h4, Option.some.injEq, Prod.mk.injEq] at hs
     obtain ⟨rfl, rfl⟩ := hs
     intro T hT
-    refine cntT_step s _ t _ T (hcnt T hT) ?_
+    refine cntT_step p s _ t _ T (hcnt T hT) (fun hst => ?_)
     rw [contrib_of_pc _ T (by simp) (by simp)]
     by_cases hTe : (s.l t).tbl = T
     · rw [contrib_pending _ T (Or.inr h4) hTe]
       subst hTe
-      simp only [setTbl, if_true]; omega
+      simp only [setTbl, if_true]
+      have h5 := total_addCtr (s.g.tables (s.l t).tbl) (p.stripes (s.g.tables (s.l t).tbl).len) (s.l t).bi (s.l t).delta (hst _)
+      have h6 : ((s.g.tables (s.l t).tbl).addCtr (p.stripes (s.g.tables (s.l t).tbl).len) (s.l t).bi (s.l t).delta).len
+          = (s.g.tables (s.l t).tbl).len := rfl
+      have h7 : ((s.g.tables (s.l t).tbl).addCtr (p.stripes (s.g.tables (s.l t).tbl).len) (s.l t).bi (s.l t).delta).data
+          = (s.g.tables (s.l t).tbl).data := rfl
+      rw [h6, h5, h7]; omega
     · rw [contrib_of_tbl _ T hTe]
       simp only [setTbl, if_neg (Ne.symm hTe)]
-  by_cases h2 : (s.l t).pc = .rzDecide
-  · obtain ⟨htbl, -, -, -, -, hcase⟩ := decide_shape p t s.g (s.l t) c g' l' hmin (hgd.lenPos _) h2 hs
+  by_cases h2 : (s.l t).pc = .rzDecide ∨ (s.l t).pc = .rzDecideSum
+  · obtain ⟨htbl, -, -, -, -, hcase⟩ := decide_shape p t s.g (s.l t) c g' l' hmin (hgd.lenPos _) hd.shr h2 hs
     have hcb := contrib_step p t s.g (s.l t) c g' l' hs h1 h4
     rcases hcase with ⟨e, -⟩ | ⟨len, -, hc, hnt, hnew, hoth, -, -⟩
     · intro T hT
       rw [e] at hT ⊢
-      exact cntT_step s _ t l' T (hcnt T hT) (by rw [hcb T])
+      exact cntT_step p s _ t l' T (hcnt T hT) (fun _ => by rw [hcb T])
     · intro T hT
       by_cases hTe : T = s.g.ntables
       · subst hTe
-        intro N _
+        intro _ N _
         have hcur : s.g.cur < s.g.ntables := hg.2
         have hz : ∀ u : Nat, pendingOn ((fun x => if x = t then l' else s.l x) u) s.g.ntables = false := by
           intro u
@@ -967,8 +1074,8 @@ theorem cnt_step (p : Params K) (s : St K V) (t : Nat) (c : Choice K V) (g' : G 
           · exact pendingOn_of_tbl _ _ (by have := (hld u).tblLe; omega)
         rw [pendSum_zero _ _ N hz]
         dsimp only
-        rw [hnew]; simp [emptyTbl]
-      · refine cntT_step s _ t l' T (hcnt T (by omega)) ?_
+        rw [hnew, total_emptyTbl]; simp [emptyTbl]
+      · refine cntT_step p s _ t l' T (hcnt T (by omega)) (fun _ => ?_)
         rw [hcb T, hoth T hTe]
   by_cases h3 : (s.l t).pc = .rzCopyDo
   · have hcb := contrib_step p t s.g (s.l t) c g' l' hs h1 h4
@@ -979,7 +1086,7 @@ theorem cnt_step (p : Params K) (s : St K V) (t : Nat) (c : Choice K V) (g' : G 
     simp only [tstep, h3, Option.some.injEq, Prod.mk.injEq] at hs
     obtain ⟨rfl, rfl⟩ := hs
     intro T hT
-    refine cntT_step s _ t _ T (hcnt T hT) ?_
+    refine cntT_step p s _ t _ T (hcnt T hT) (fun hst => ?_)
     rw [hcb T]
     by_cases hTe : T = (s.l t).newT
     · subst hTe
@@ -987,14 +1094,18 @@ theorem cnt_step (p : Params K) (s : St K V) (t : Nat) (c : Choice K V) (g' : G 
       have hlen' : (List.foldl (fun d e => AMap.set d e.1 e.2) (s.g.tables (s.l t).newT).data
           (bucketEntries p s.g (s.l t).rtbl (s.l t).ci)).length =
           (s.g.tables (s.l t).newT).data.length + (bucketEntries p s.g (s.l t).rtbl (s.l t).ci).length := hlen
-      rw [hlen']; simp only [Int.natCast_add]; omega
+      have h5 := total_addCtr (s.g.tables (s.l t).newT) (p.stripes (s.g.tables (s.l t).newT).len) (s.l t).ci
+        ((bucketEntries p s.g (s.l t).rtbl (s.l t).ci).length : Int) (hst _)
+      rw [hlen']
+      show PTbl.total ((s.g.tables (s.l t).newT).addCtr _ _ _) (p.stripes (s.g.tables (s.l t).newT).len) + _ + _ = _
+      rw [h5]; simp only [Int.natCast_add]; omega
     · simp only [setTbl, if_neg hTe]
   · obtain ⟨hnt, hsame⟩ := quiet_sameC p t s.g (s.l t) c g' l' h1 h2 h3 h4 hs
     have hcb := contrib_step p t s.g (s.l t) c g' l' hs h1 h4
     intro T hT
     rw [hnt] at hT
-    refine cntT_step s _ t l' T (hcnt T hT) ?_
-    rw [hcb T, (hsame T).1, (hsame T).2]
+    refine cntT_step p s _ t l' T (hcnt T hT) (fun _ => ?_)
+    rw [hcb T, total_congr _ _ _ _ (hsame T).1 (by rw [(hsame T).2.1]), (hsame T).2.2]
 
 /-! ## part: Main -/
 
@@ -1003,15 +1114,16 @@ structure DInv (p : Params K) (s : St K V) : Prop where
   gd : GD s.g
   ld : ∀ u, LD p s.g (s.l u)
   pair : ∀ r u, Pair (s.l r) (s.l u)
-  cnt : ∀ T, T < s.g.ntables → CntT s T
+  cnt : ∀ T, T < s.g.ntables → CntT p s T
 
 theorem dinv_init (p : Params K) (hmin : 0 < p.minLen) : DInv (V := V) p (init p) := by
   refine ⟨⟨fun T => AMap.WF_nil, fun T => hmin⟩, fun u => ?_, fun r u => ?_, fun T hT => ?_⟩
   · exact LD_of_quietPc p _ _ rfl (Nat.le_refl _) (fun f hf => by cases hf)
   · intro c hc; cases hc
-  · intro N _
+  · intro _ N _
     rw [pendSum_zero _ _ N (fun u => rfl)]
-    rfl
+    show PTbl.total (emptyTbl p.minLen) _ + 0 = _
+    rw [total_emptyTbl]; rfl
 
 theorem dinv_step (p : Params K) (hmin : 0 < p.minLen) (s s' : St K V) (t : Tid) (c : Choice K V)
     (hi : Inv s) (hd : DInv p s) (hs : step p s t c = some s') : DInv p s' := by
@@ -1134,9 +1246,9 @@ theorem abs_changes_only_at_commit_or_clear (p : Params K) (hmin : 0 < p.minLen)
       obtain ⟨k0, nv, del, hk0, -⟩ := commit_shape p t s.g (s.l t) c g' l' h1 hs
       obtain ⟨hc, -, -, hoth, -, -⟩ := commit_frame p t s.g (s.l t) c g' l' h1 hs k0 hk0
       unfold absGet; rw [hc, hoth _ (Ne.symm hT)]
-  by_cases h2 : (s.l t).pc = .rzDecide
+  by_cases h2 : (s.l t).pc = .rzDecide ∨ (s.l t).pc = .rzDecideSum
   · exfalso; apply hk
-    obtain ⟨-, -, -, -, -, hcase⟩ := decide_shape p t s.g (s.l t) c g' l' hmin (hdi.gd.lenPos _) h2 hs
+    obtain ⟨-, -, -, -, -, hcase⟩ := decide_shape p t s.g (s.l t) c g' l' hmin (hdi.gd.lenPos _) hd.shr h2 hs
     rcases hcase with ⟨e, -⟩ | ⟨len, -, hc, -, -, hoth, -, -⟩
     · rw [e]
     · have := hg.2
@@ -1181,25 +1293,76 @@ theorem clear_publish_empties (p : Params K) (hmin : 0 < p.minLen) (s : St K V) 
 
 /-! ### D4 -/
 
-/-- **D4 (C08)**: in every table generation (published, retired or under construction) the counter plus the
-deltas of the writers between their commit and their counter update equals the number of entries -/
-theorem counter_invariant (p : Params K) (hmin : 0 < p.minLen) (s : St K V) (h : Reach p s) (T : Nat)
+/-- **D4 (C08)**: in every table generation (published, retired or under construction) the sum of the counter
+stripes plus the deltas of the writers between their commit and their counter update equals the number of entries.
+(`total` is the ghost *atomic* sum of the stripes; `hst`: every table has at least one stripe.) -/
+theorem counter_invariant (p : Params K) (hmin : 0 < p.minLen) (hst : ∀ n, 0 < p.stripes n) (s : St K V) (h : Reach p s) (T : Nat)
     (hT : T < s.g.ntables) (N : Nat) (hN : ∀ u : Nat, N ≤ u → (s.l u).pc = .idle) :
-    (s.g.tables T).size + pendSum s T N = ((s.g.tables T).data.length : Int) :=
-  (dinv_reach p hmin s h).cnt T hT N (fun u hu => by simp [pendingOn, hN u hu])
+    (s.g.tables T).total (p.stripes (s.g.tables T).len) + pendSum s T N = ((s.g.tables T).data.length : Int) :=
+  (dinv_reach p hmin s h).cnt T hT hst N (fun u hu => by simp [pendingOn, hN u hu])
 
 /-- the same, for every bound `N` above the writers with a pending delta on `T` -/
-theorem counter_invariant' (p : Params K) (hmin : 0 < p.minLen) (s : St K V) (h : Reach p s) (T : Nat)
+theorem counter_invariant' (p : Params K) (hmin : 0 < p.minLen) (hst : ∀ n, 0 < p.stripes n) (s : St K V) (h : Reach p s) (T : Nat)
     (hT : T < s.g.ntables) (N : Nat) (hN : ∀ u : Nat, N ≤ u → pendingOn (s.l u) T = false) :
-    (s.g.tables T).size + pendSum s T N = ((s.g.tables T).data.length : Int) :=
-  (dinv_reach p hmin s h).cnt T hT N hN
+    (s.g.tables T).total (p.stripes (s.g.tables T).len) + pendSum s T N = ((s.g.tables T).data.length : Int) :=
+  (dinv_reach p hmin s h).cnt T hT hst N hN
 
-/-- `Size` is exact when no call is in progress -/
-theorem size_exact_when_quiescent (p : Params K) (hmin : 0 < p.minLen) (s : St K V) (h : Reach p s)
+/-- the counter of the current table is exact when no call is in progress -/
+theorem size_exact_when_quiescent (p : Params K) (hmin : 0 < p.minLen) (hst : ∀ n, 0 < p.stripes n) (s : St K V) (h : Reach p s)
     (hq : ∀ u, (s.l u).pc = .idle) :
-    (s.g.tables s.g.cur).size = ((s.g.tables s.g.cur).data.length : Int) := by
-  have := counter_invariant p hmin s h s.g.cur (inv_reach p s h).1.2 0 (fun u _ => hq u)
+    (s.g.tables s.g.cur).total (p.stripes (s.g.tables s.g.cur).len) = ((s.g.tables s.g.cur).data.length : Int) := by
+  have := counter_invariant p hmin hst s h s.g.cur (inv_reach p s h).1.2 0 (fun u _ => hq u)
   simpa [pendSum] using this
+
+/-- the counter of the current table is exact when no writer is between its commit and its counter update -/
+theorem total_exact_no_pending (p : Params K) (hmin : 0 < p.minLen) (hst : ∀ n, 0 < p.stripes n) (s : St K V) (h : Reach p s)
+    (hq : ∀ u, pendingOn (s.l u) s.g.cur = false) :
+    (s.g.tables s.g.cur).total (p.stripes (s.g.tables s.g.cur).len) = ((s.g.tables s.g.cur).data.length : Int) := by
+  have := counter_invariant' p hmin hst s h s.g.cur (inv_reach p s h).1.2 0 (fun u _ => hq u)
+  simpa [pendSum] using this
+
+/-! ### the `Size()` call: `sumSize` reads the stripes one atomic load at a time -/
+
+/-- pcs whose step only reads shared state (or touches nothing shared): starting a call, `Load`, the lock-free
+fast path of LoadOrStore/LoadOrCompute, `Size`, returning to the caller -/
+def roPc : Pc → Bool
+  | .idle | .ldTable | .ldRead | .szTable | .szSum | .dcFast | .ret => true
+  | _ => false
+
+/-- a step at a read-only pc changes nothing shared -/
+theorem ro_step_g (p : Params K) (t : Tid) (g : G K V) (l : L K V) (c : Choice K V) (g' : G K V) (l' : L K V)
+    (h : roPc l.pc = true) (hs : tstep p t g l c = some (g', l')) : g' = g := by
+  cases hpc : l.pc <;> simp [roPc, hpc] at h <;> simp only [tstep, hpc] at hs <;> (repeat' split at hs) <;>
+    simp only [Option.some.injEq, reduceCtorEq, Prod.mk.injEq] at hs <;> exact hs.1.symm
+
+/-- a thread at a read-only pc has no pending counter delta -/
+theorem ro_not_pending (l : L K V) (T : Nat) (h : roPc l.pc = true) : pendingOn l T = false := by
+  cases hpc : l.pc <;> simp [roPc, hpc] at h <;> simp [pendingOn, hpc]
+
+/-- loop invariant of `sumSize` inside a `Size` call on table `T`, whose `n` counter stripes are `c0`:
+before the table is loaded; or `acc` is the sum of the stripes `< si`; or the call has its result, the full sum -/
+def SzL (T : Nat) (c0 : Nat → Int) (n : Nat) (l : L K V) : Prop :=
+  l.pc = .szTable ∨ (l.pc = .szSum ∧ l.tbl = T ∧ l.si < n ∧ l.acc = psum c0 l.si) ∨
+  (l.pc = .ret ∧ l.result = some (.size (psum c0 n)))
+
+/-- a step of the `Size` call (not its return step) keeps the loop invariant and changes nothing shared, as long as
+the current table is `T` and its stripes are `c0` -/
+theorem szL_step (p : Params K) (t : Tid) (g : G K V) (l : L K V) (c : Choice K V) (g' : G K V) (l' : L K V)
+    (T : Nat) (c0 : Nat → Int) (n : Nat) (hn : 0 < n) (hT : g.cur = T) (hc : (g.tables T).ctr = c0)
+    (hnn : p.stripes (g.tables T).len = n) (h : SzL T c0 n l) (hret : l.pc ≠ .ret)
+    (hs : tstep p t g l c = some (g', l')) : g' = g ∧ SzL T c0 n l' := by
+  rcases h with hpc | ⟨hpc, htb, hsi, hacc⟩ | ⟨hpc, -⟩
+  · simp only [tstep, hpc, Option.some.injEq, Prod.mk.injEq] at hs
+    obtain ⟨rfl, rfl⟩ := hs
+    exact ⟨rfl, Or.inr (Or.inl ⟨rfl, hT, hn, rfl⟩)⟩
+  · simp only [tstep, hpc, htb, hnn, hc] at hs
+    split at hs <;> simp only [Option.some.injEq, Prod.mk.injEq] at hs <;> obtain ⟨rfl, rfl⟩ := hs
+    · rename_i hlt
+      exact ⟨rfl, Or.inr (Or.inl ⟨rfl, rfl, hlt, by rw [psum_succ, ← hacc]⟩)⟩
+    · rename_i hlt
+      have : l.si + 1 = n := by omega
+      exact ⟨rfl, Or.inr (Or.inr ⟨rfl, by rw [← this, psum_succ, ← hacc]⟩)⟩
+  · exact absurd hpc hret
 
 /-! ## part: Range (D5) -/
 
@@ -1210,8 +1373,8 @@ theorem step_len (p : Params K) (t : Tid) (g : G K V) (l : L K V) (c : Choice K 
   · obtain ⟨k0, nv, del, hk0, -⟩ := commit_shape p t g l c g' l' h1 hs
     obtain ⟨-, -, hlen, -⟩ := commit_frame p t g l c g' l' h1 hs k0 hk0
     exact fun T _ => (hlen T).1
-  by_cases h2 : l.pc = .rzDecide
-  · simp only [tstep, h2] at hs
+  by_cases h2 : l.pc = .rzDecide ∨ l.pc = .rzDecideSum
+  · rcases h2 with h2 | h2 <;> simp only [tstep, h2] at hs <;>
     (repeat' split at hs) <;> simp only [Option.some.injEq, Prod.mk.injEq] at hs <;> obtain ⟨rfl, -⟩ := hs <;>
       intro T hT <;> simp only [setTbl] <;> (try rw [if_neg (show T ≠ g.ntables by omega)])
   by_cases h3 : l.pc = .rzCopyDo
@@ -1233,8 +1396,8 @@ theorem tblLe_step (p : Params K) (t : Tid) (g : G K V) (l : L K V) (c : Choice 
   by_cases h1 : l.pc = .dcCommit
   · obtain ⟨_, _, _, _, _, _, htbl, hfr, -⟩ := commit_shape p t g l c g' l' h1 hs
     rw [htbl, hfr]; exact ⟨hd.tblLe, hd.framesLe⟩
-  by_cases h2 : l.pc = .rzDecide
-  · simp only [tstep, h2] at hs
+  by_cases h2 : l.pc = .rzDecide ∨ l.pc = .rzDecideSum
+  · rcases h2 with h2 | h2 <;> simp only [tstep, h2] at hs <;>
     (repeat' split at hs) <;> simp only [Option.some.injEq, Prod.mk.injEq] at hs <;> obtain ⟨-, rfl⟩ := hs <;>
       exact ⟨hd.tblLe, hd.framesLe⟩
   by_cases h3 : l.pc = .rzCopyDo
@@ -1318,6 +1481,7 @@ selfr_case selfr_dcLock Pc.dcLock
 selfr_case selfr_dcChkResizing Pc.dcChkResizing
 selfr_case selfr_dcChkTable Pc.dcChkTable
 selfr_case selfr_dcScan Pc.dcScan
+selfr_case selfr_dcSum Pc.dcSum
 selfr_case selfr_dcFn Pc.dcFn
 selfr_case selfr_dcCommit Pc.dcCommit
 selfr_case selfr_dcUnlock Pc.dcUnlock
@@ -1329,6 +1493,7 @@ selfr_case selfr_dcUnlockGrow Pc.dcUnlockGrow
 selfr_case selfr_rzCas Pc.rzCas
 selfr_case selfr_rzLoadTable Pc.rzLoadTable
 selfr_case selfr_rzDecide Pc.rzDecide
+selfr_case selfr_rzDecideSum Pc.rzDecideSum
 selfr_case selfr_rzCopyLock Pc.rzCopyLock
 selfr_case selfr_rzCopyDo Pc.rzCopyDo
 selfr_case selfr_rzCopyUnlock Pc.rzCopyUnlock
@@ -1363,7 +1528,16 @@ theorem selfr_idle (p : Params K) (t : Tid) (g : G K V) (l : L K V) (c : Choice 
 theorem selfr_rzFast (p : Params K) (t : Tid) (g : G K V) (l : L K V) (c : Choice K V) (g' : G K V) (l' : L K V)
     (hr : RD p g l) (hpc : l.pc = .rzFast) (hs : tstep p t g l c = some (g', l')) : RD p g l' := by
   simp only [tstep, hpc] at hs
-  split at hs <;> simp only [Option.some.injEq, Prod.mk.injEq] at hs <;> obtain ⟨-, rfl⟩ := hs
+  (repeat' split at hs) <;> simp only [Option.some.injEq, Prod.mk.injEq] at hs <;> obtain ⟨-, rfl⟩ := hs
+  · exact RD_popCont p g l hr
+  · exact RD_of_quiet p g _ rfl (by simp) hr.fr
+  · exact RD_of_quiet p g _ rfl (by simp) hr.fr
+
+theorem selfr_rzFastSum (p : Params K) (t : Tid) (g : G K V) (l : L K V) (c : Choice K V) (g' : G K V) (l' : L K V)
+    (hr : RD p g l) (hpc : l.pc = .rzFastSum) (hs : tstep p t g l c = some (g', l')) : RD p g l' := by
+  simp only [tstep, hpc] at hs
+  (repeat' split at hs) <;> simp only [Option.some.injEq, Prod.mk.injEq] at hs <;> obtain ⟨-, rfl⟩ := hs
+  · exact RD_of_quiet p g _ (by simp [rgPc]) (by simp) hr.fr
   · exact RD_popCont p g l hr
   · exact RD_of_quiet p g _ rfl (by simp) hr.fr
 
@@ -1466,6 +1640,7 @@ theorem selfr (p : Params K) (t : Tid) (g : G K V) (l : L K V) (c : Choice K V) 
   · exact selfr_dcChkResizing p t g l c g' l' hr hpc hs
   · exact selfr_dcChkTable p t g l c g' l' hr hpc hs
   · exact selfr_dcScan p t g l c g' l' hr hpc hs
+  · exact selfr_dcSum p t g l c g' l' hr hpc hs
   · exact selfr_dcFn p t g l c g' l' hr hpc hs
   · exact selfr_dcCommit p t g l c g' l' hr hpc hs
   · exact selfr_dcUnlock p t g l c g' l' hr hpc hs
@@ -1475,9 +1650,11 @@ theorem selfr (p : Params K) (t : Tid) (g : G K V) (l : L K V) (c : Choice K V) 
   · exact selfr_dcUnlockRetry p t g l c g' l' hr hpc hs
   · exact selfr_dcUnlockGrow p t g l c g' l' hr hpc hs
   · exact selfr_rzFast p t g l c g' l' hr hpc hs
+  · exact selfr_rzFastSum p t g l c g' l' hr hpc hs
   · exact selfr_rzCas p t g l c g' l' hr hpc hs
   · exact selfr_rzLoadTable p t g l c g' l' hr hpc hs
   · exact selfr_rzDecide p t g l c g' l' hr hpc hs
+  · exact selfr_rzDecideSum p t g l c g' l' hr hpc hs
   · exact selfr_rzCopyLock p t g l c g' l' hr hpc hs
   · exact selfr_rzCopyDo p t g l c g' l' hr hpc hs
   · exact selfr_rzCopyUnlock p t g l c g' l' hr hpc hs
